@@ -57,6 +57,7 @@ type Exec struct {
 	trusted     map[string]bool // names of assumed contracts / intrinsics / opaque calls used
 	curCom      *ssa.CallCommon // the call being dispatched (for out-parameter havoc of opaque calls)
 	nSummary    int             // loop summary events created
+	initOnce    map[*ssa.Global]bool
 	typeIDs     map[string]int
 	typeByID    map[int]types.Type
 	globalIDs   map[*ssa.Global]int
